@@ -410,6 +410,46 @@ func oracleLines(n int) {
 }
 
 func c15(nrand, nextRandom, nstrings int) {
+	// HISTORIES first (before any other call has touched package-level state): a text of the pattern is parsed and only
+	// then a frame with the same ID is printed - in lower case, upper case and mixed case, valid and invalid data, a
+	// rejected text between two accepted ones. String() and UnmarshalString are functions of their argument alone, so
+	// every line is compared with the model as usual; the ORDER of the calls in this process is what is exercised.
+	for i := 0; i < 3000; i++ {
+		var id uint32
+		ext := i%3 == 0
+		if ext {
+			id = uint32(rng.Intn(1 << 29))
+		} else {
+			id = uint32(i % 2048)
+		}
+		f := can.Frame{ID: id, IsExtended: ext, Length: uint8(rng.Intn(9))}
+		d := randData()
+		f.Data = maskData(d, int(f.Length))
+		// the text is built here, not by String(): nothing of the code under test has seen this ID yet
+		idPart := fmt.Sprintf("%03X", id)
+		if ext {
+			idPart = fmt.Sprintf("%08X", id)
+		}
+		rest := "#" + strings.ToUpper(hex.EncodeToString(f.Data[:f.Length]))
+		text := idPart + rest
+		lower := strings.ToLower(idPart) + strings.ToLower(rest)
+		switch i % 4 {
+		case 0:
+			emitU(lower, false)
+		case 1:
+			emitU(strings.ToLower(idPart)+rest, false)
+		case 2:
+			emitU(lower[:len(lower)-1]+"Z", false) // rejected (bad hex / odd length), then the same text accepted
+			emitU(lower, false)
+		default:
+			emitU(idPart+"#"+strings.Repeat("11", 8)+"ZZ", false) // rejected after filling every data byte
+			emitU(idPart+"#AA", false)
+		}
+		emitS(f, false)
+		if i%5 == 0 {
+			emitU(text, true)
+		}
+	}
 	forFrames(nrand, nextRandom, func(f can.Frame) { emitS(f, true) })
 	for _, s := range fixedStrings() {
 		emitU(s, true)
